@@ -20,7 +20,9 @@ for ln in open(f"{root}/known_findings.jsonl"):
 for mp in sorted(glob.glob(f"{root}/seeded/*/meta.json")):
     m = json.load(open(mp))
     sid = m["id"]
-    ent = {"patch": f"seeded/{sid}/patch.diff", "property": m["breaks_property"], "note": "seeded change " + sid}
+    ent = {"patch": f"seeded/{sid}/patch.diff", "property": m.get("detected_by", m["breaks_property"]), "note": "seeded change " + sid}
+    if m.get("detected_by"):
+        ent["note"] += f" (seeded against {m['breaks_property']}; it violates {m['detected_by']}'s clause, see meta.json)"
     if m.get("outside_property_text"):
         ent["expect"] = "undetected"
         ent["note"] += " (not a violation of the property as stated; kept for the record)"
